@@ -104,6 +104,7 @@ _quick = set(family.kind_tags("quick"))
 for _t in family.kind_tags("thorough"):
     _u = family.leaf_unit(_t)
     _u.tier = "quick" if _t in _quick else "thorough"
+    _u.props_c = ["C03", "C04", "C06", "C07", "C14"]
     for _v in VARIANTS:
         _mk(_u, _v)
 for _u in family.composite_units():
@@ -113,6 +114,16 @@ for _u in family.composite_units():
     for _v in VARIANTS:
         if VARIANTS[_v][0] and "traditional" not in _u.tags and "traditional-part" not in _u.tags:
             continue
+        _mk(_u, _v)
+
+
+# ------------------------------------------------------------------ C12: rewrite variants (each proved against its own layout)
+for _name, _schema, _top, _vmap in family.rewrite_variants():
+    _u = family.Unit("rewrite:" + _name, _schema, [_top], tags=("rewrite", "traditional"))
+    _u.props_c = ["C12"]
+    for _v in ("std[le]", "opt[both,le]"):
+        _o, _e, _b, _pp = VARIANTS[_v]
+        VARIANTS[_v] = (_o, _e, _b, sorted(set(_pp) | {"C12"}))
         _mk(_u, _v)
 
 
